@@ -13,7 +13,7 @@ import z3
 from minecraft.networking import encryption
 
 from pyvc.driver import Unit
-from pyvc.values import SInt, SBool, SStr, SBytes, Blob, And, Unsupported
+from pyvc.values import SInt, SBool, SStr, SBytes, SByteArray, Blob, And, Unsupported
 from pyvc.interp import PyRaise
 from pyvc.builtins_model import _hexstr
 from pyvc.harness import native_call
@@ -68,8 +68,13 @@ class HashUnit(Unit):
         server_id = E.new_str('server_id')
         secret = SBytes([E.new_blob('secret', 16)])
         pubkey = SBytes([E.new_blob('pubkey')])
+        # "for every server id, secret and key": the secret and the key are bytes-LIKE - a bytearray (what a caller that builds
+        # them incrementally holds) is hashed as its content, like bytes (seeded change C17-r11: repr of the bytearray hashed)
+        rep = E.fork(3, 'bytes-like-kind')
+        a_secret = SByteArray(secret) if rep == 1 else secret
+        a_pubkey = SByteArray(pubkey) if rep == 2 else pubkey
         try:
-            r = I.call(encryption.generate_verification_hash, server_id, secret, pubkey)
+            r = I.call(encryption.generate_verification_hash, server_id, a_secret, a_pubkey)
         except PyRaise as e:
             E.check('hash.no-raise', False, note='raised %r' % (e.exc,))
             return None
@@ -149,6 +154,15 @@ class HashUnit(Unit):
             if rp['confirmed']:
                 fails.append(dict(call=rp['call'], observed=rp['observed'], witness='hash'))
                 break
+        for sec, key in ((bytearray(b'0123456789abcdef'), b'key'), (b'0123456789abcdef', bytearray(b'key')),
+                         (memoryview(b'0123456789abcdef'), memoryview(b'key')), (bytearray(16), bytearray(b'\x30\x81'))):
+            cnt += 1
+            k, got = native_call(encryption.generate_verification_hash, 'srv', sec, key)
+            want = java_hex(hashlib.sha1(b'srv' + bytes(sec) + bytes(key)).digest())
+            if k != 'ok' or got != want:
+                fails.append(dict(call='generate_verification_hash("srv", %s(...), %s(...))' % (type(sec).__name__, type(key).__name__),
+                                  observed='%s %r, Java gives %s for the same bytes' % (k, got, want), witness='hash-bytes-like'))
+                break
         for _ in range(300):
             cnt += 1
             sid = ''.join(chr(rng.choice([rng.randrange(32, 127), rng.randrange(0xa0, 0x800), 0x20ac])) for _ in range(rng.randrange(0, 20)))
@@ -158,7 +172,7 @@ class HashUnit(Unit):
                 break
         return dict(name='C17.hash.vectors', evaluations=cnt, failures=fails[:2],
                     bound='3 published vectors, searched digests (top bit set / leading zero nibble / leading zero byte: %r), '
-                          'one digest per leading byte value 0..255, 300 seeded random triples' % (found,))
+                          'one digest per leading byte value 0..255, bytearray / memoryview arguments, 300 seeded random triples' % (found,))
 
 
 def _safe_eq(a, b):
